@@ -121,3 +121,13 @@ package main
 //@     assumepre taskOK(arg0) // tasks of the loaded configuration have Env and Variables (buildTask)
 //@     assume (forall i int :: 0 <= i && i < len(argsSlice(ctxArgs(c))) ==> argsSlice(ctxArgs(c))[i] == old(argsSlice(ctxArgs(c))[i])) && taskRunner != nil && runnerOK(taskRunner) && cfgLoaded() && compiledClosed() // as above
 //@     ghost failed = failed || result != nil
+
+// ---- C10: --set NAME=VALUE defines NAME as everything before the first '=' and VALUE as everything after it
+//@ func makeApp$2
+//@   waive safe.nil "the hook's use of cfg after a swallowed 'default config not found' error depends on what Loader.Load returns with that error (its dst); Load is only thinly specified, and no-crash of the CLI glue is not part of C10"
+//@   requires c != nil && loaderOK(cl) && cl.dst != nil && cl.dst.Variables != nil
+//@   modifies *
+//@   loop 1 "range c.StringSlice(\"set\")"
+//@     invariant c#1 != nil
+//@   callsite Set
+//@     requires #C10.set-splits-at-the-first-equals-sign strIndex(c#2, "=") >= 0 && arg0 == substr(c#2, 0, strIndex(c#2, "=")) && arg1 == boxstr(substr(c#2, strIndex(c#2, "=") + 1, len(c#2)))
